@@ -446,7 +446,7 @@ def run_case(case):
     if s.capped:
         res['probes']['step_cap_hit'] += 1
     res['steps'] = s.step
-    res['fired']['switch_with_two_in_flight'] += overlap[0]
+    res['fired']['preempted_mid_request'] += overlap[0]
     res['fired']['switches'] += len(s.executed)
     res['probes']['plan:' + case['plan']['mode']] += 1
     res['probes']['gran:' + gran] += 1
